@@ -27,7 +27,17 @@ VERSIONS = {
              "s = 'plain'  # ⁧ isolate\nimport hashlib\nhashlib.md5(d)\nhashlib.new('sha1')\neval(e)\n"],
     "c.py": ["try:\n    f()\nexcept Exception:\n    pass\nassert x\nexec(c)\n",
              "try:\n    f()\nexcept ValueError:\n    pass\nimport random\nrandom.random()\nimport yaml\nyaml.load(s)\n",
-             "x = 1\n"],
+             "x = 1\n",
+             # not valid Python 3: skipped — the report of such a scan (its metrics block too) is that of a scan that found nothing (seeded change C08-m14 shared
+             # one totals dict between all Metrics objects of the process)
+             "print 'python 2'\nimport pickle\n"],
+    # two texts of one layout that differ only in what flows into mark_safe: whatever is remembered about one must not be looked up for the other (seeded change
+    # C08-m13 cached B703 verdicts per (scope name, scope line, variable, line) for the whole process — without the file)
+    "d.py": ["from django.utils.safestring import mark_safe\n\n\ndef render(request):\n    label = '<b>static</b>'\n    return mark_safe(label)\n",
+             "from django.utils.safestring import mark_safe\n\n\ndef render(request):\n    label = request.GET['q']\n    return mark_safe(label)\n",
+             "from django.utils.safestring import mark_safe\n\n\ndef render(request):\n    label = '<i>%s</i>' % request.user\n    return mark_safe(label)\n"],
+    "e.py": ["from django.utils.safestring import mark_safe\n\n\ndef render(request):\n    label = request.GET['q']\n    return mark_safe(label)\n",
+             "from django.utils.safestring import mark_safe\n\n\ndef render(request):\n    label = '<b>static</b>'\n    return mark_safe(label)\n"],
 }
 PROFILES = {"all": {}, "only_B301": {"include": ["B301"]}, "no_B403_B404": {"exclude": ["B403", "B404"]}, "only_B613_B608": {"include": ["B613", "B608"]},
             "bl_subset": {"include": ["B302", "B312", "B324", "B602"]}}
@@ -65,6 +75,18 @@ def strip_volatile(fmt, text):
     return text
 
 
+def fixed_histories():
+    """histories every run includes: the minimal sequences behind the state-carrying changes seen so far"""
+    st = lambda f, v, p="all", c="none", fm=("json",): {"file": f, "version": v, "profile": p, "config": c, "formats": list(fm)}
+    return [
+        [st("a.py", 0), st("c.py", 3, fm=("json", "yaml")), st("c.py", 2, fm=("json",)), st("a.py", 1, fm=("yaml", "json"))],            # findings, then a skipped file: totals start from zero
+        [st("d.py", 0), st("e.py", 0), st("d.py", 1), st("e.py", 1)],                                                                 # same layout, different data flow
+        [st("a.py", 0, p="only_B301"), st("b.py", 1), st("a.py", 1, p="bl_subset"), st("a.py", 1)],                                   # narrow selection first
+        [st("a.py", 2, c="custom"), st("a.py", 2), st("c.py", 0, c="custom"), st("c.py", 0)],                                         # settings, then defaults
+        [st("b.py", 0, fm=("yaml", "json", "csv", "csv")), st("b.py", 1, fm=("csv", "json"))],                                        # several reports from one scanner
+    ]
+
+
 def gen_history(rng, nsteps, files=None, profiles=None, configs=None, formats=None):
     files = files or sorted(VERSIONS)
     profiles = profiles or sorted(PROFILES)
@@ -95,7 +117,7 @@ def run(res, ctx, C, scratch, rng, n_histories, nsteps, formats=None, sarif=True
             cfgfiles[k] = os.path.join(hdir, k + ".yaml")
             with open(cfgfiles[k], "w") as fh:
                 yaml.safe_dump(v, fh)
-    hs = histories or [gen_history(rng, nsteps, formats=fmts) for _ in range(n_histories)]
+    hs = histories or (fixed_histories() + [gen_history(rng, nsteps, formats=fmts) for _ in range(n_histories)])
     # ---- references from pristine interpreters, one per distinct (file, version, profile, config)
     keys = {}
     for h in hs:
